@@ -97,6 +97,15 @@ func H_C03_FrostSignTamper() {
 					out["b"] = bad
 				}
 			}
+			if m.From == "c" && m.RoundNumber >= 3 {
+				for _, id := range []party.ID{"a", "b"} {
+					if exp := hs[id].VerifBroadcastHash(m.RoundNumber - 1); exp != nil {
+						mm := *out[id]
+						mm.BroadcastVerification = exp
+						out[id] = &mm
+					}
+				}
+			}
 			for _, id := range ids {
 				if hs[id].CanAccept(out[id]) {
 					hs[id].Accept(out[id])
